@@ -131,16 +131,23 @@ Definition tmp_new (u : Z) : MA unit :=
 Definition tmp_del (u : Z) : MA unit := lift (decref u).
 
 (** [u <= v]: [(other | ~ self) == self.bdd.true]; the temporaries are
-    created and dropped in evaluation order *)
+    created and dropped in evaluation order.  When [other | ~ self] raises
+    (a full table: [RuntimeError]) the temporary [~ self] dies while the
+    exception unwinds the frame of [__le__] ([Function.__del__]). *)
 Definition f_le (hu hv : nat) : MA bool :=
   u <- node_of hu ;; v <- node_of hv ;;
   n <- lift (apply "not" u None None) ;; tmp_new n ;;;
-  o <- lift (apply "or" v (Some n) None) ;; tmp_new o ;;;
-  tmp_del n ;;;
-  tmp_new 1 ;;;
-  let r := bool_decide (o = 1%Z) in
-  tmp_del o ;;; tmp_del 1 ;;;
-  ret r.
+  ro <- catch (lift (apply "or" v (Some n) None)) ;;
+  match ro with
+  | Err e => tmp_del n ;;; raise e
+  | Ok o =>
+      tmp_new o ;;;
+      tmp_del n ;;;
+      tmp_new 1 ;;;
+      let r := bool_decide (o = 1%Z) in
+      tmp_del o ;;; tmp_del 1 ;;;
+      ret r
+  end.
 
 (** [u < v]: [self <= other and self != other] *)
 Definition f_lt (hu hv : nat) : MA bool :=
